@@ -11,6 +11,19 @@ new calls in the middle, new_inst_node) - into a Builder/Compiler whose node lis
 Assembler fed with the edited sequence. Every run owns a fresh CodeHolder with the same environment.
 Oracle: sections (count, name, flags, alignment, order, bytes), labels (bound, section, offset), relocation entries,
 unresolved fixups, first error code (+ everything produced before it), and the flattened / relocated image.
+
+Dimensions added later (all picks from side streams, every one with a measured counter that must be non-zero):
+  * JA calls: Compiler::emit_annotated_jump (JumpNode with its own operand/option/extra-reg storage) vs a plain jmp/br/b elsewhere;
+  * kTaken / kNotTaken on every conditional-jump pool entry (scripts with EncodingOptions::kPredictedJumps get them for sure) and
+    forced REX.B/X/R/W option bits on 64-bit forms;
+  * labels the emitter under test did not create: CodeHolder::new_label_id / new_named_label_id, an idle second emitter on the
+    same holder (LabelNode made on demand by label_node_of), BaseBuilder::new_label_node;
+  * GC calls: Compiler::_new_const(kGlobal) + GlobalConstPoolPass vs [label+offset] and embed_const_pool after the last node;
+  * edit scripts make 1/6 of the one-node calls by hand (new_inst_node + set_op + set_extra_reg + set_inline_comment, new_align_node,
+    new_embed_data_node, new_comment_node, then add_node), on Builder and Compiler, all three architectures;
+  * remove_node / remove_nodes of nodes that are not part of the list (nothing may change);
+  * a refused call: the state after finalize() is compared in full with the node-order Assembler fed with the calls in front of it;
+    "go on" replays (script flag F_CONTINUE) continue after the refusal on every emitter and compare everything again.
 """
 import collections
 import json
@@ -72,6 +85,8 @@ def build_pools(rng, shard, nshards, exes, want_forms):
         mine.append(order[rng.below(len(order))])
     # the few forms with 5 and 6 operands go into every worker's pool (they are the only way to reach operands 4 and 5)
     mine += [i for i, f in enumerate(forms) if len(f["operands"]) >= 5 and i not in mine]
+    # so do the indirect / direct jmp forms: the only instruction the Compiler's annotated-jump API (JumpNode) is meant for
+    mine += [i for i, f in enumerate(forms) if f["name"] == "jmp" and i not in mine]
     sub = [forms[i] for i in mine]
     for arch, mode in (("x86", 32), ("x64", 64)):
         cands = SG.x86_pool_candidates(rng.fork("pool-" + arch), sub, mode, 5)
@@ -82,6 +97,7 @@ def build_pools(rng, shard, nshards, exes, want_forms):
     mine = order[shard::nshards]
     while len(mine) < want_forms:
         mine.append(order[rng.below(len(order))])
+    mine += [i for i, r in enumerate(recs) if r["name"] in ("br", "b") and i not in mine]
     a64gen.build_forms(recs)    # fills the module's write-back name table from the whole database
     cases, _ = a64gen.generate([recs[i] for i in sorted(set(mine))], rng.next() % (1 << 40), "quick", None, nrandom=3)
     cases = [c for c in cases if c["status"] != "bad" or rng.chance(1, 6)]
@@ -174,7 +190,7 @@ def minimize(exe, script, key, budget=160):
                 else:
                     i += chunk
             chunk //= 2
-    for bit in (SG.F_LOGGER, SG.F_OPT_SIZE, SG.F_OPT_ALIGN, SG.F_PREDICTED, SG.F_BASE, SG.F_VALIDATE_INTERMEDIATE, SG.F_VALIDATE_ASM):
+    for bit in (SG.F_CONTINUE, SG.F_LOGGER, SG.F_OPT_SIZE, SG.F_OPT_ALIGN, SG.F_PREDICTED, SG.F_BASE, SG.F_VALIDATE_INTERMEDIATE, SG.F_VALIDATE_ASM):
         if best["flags"] & bit:
             cand = dict(best)
             cand["flags"] = best["flags"] & ~bit
@@ -198,6 +214,7 @@ def worker(arg):
     hashes = {}            # calls hash -> kinds mask measured by the driver
     edit_hashes = set()
     kinds_seen = 0
+    kinds_compiler = 0
     viol = {}              # key -> (what, script, count)
     samples = []
     harness = []
@@ -239,6 +256,20 @@ def worker(arg):
                 ncalls = sum(1 for c in s["calls"] if c["kind"] != "NL")
                 st["calls"] += ncalls
                 st["max_calls"] = max(st["max_calls"], ncalls)
+                hinted = False
+                for c in s["calls"] + s.get("calls2", []):
+                    if c["kind"] == "I" and c.get("dim") == "hint":
+                        hinted = True
+                        st["x_jcc_with_taken_or_not_taken_hint"] += 1
+                    elif c["kind"] == "I" and c.get("dim") == "rexbits":
+                        st["x_inst_with_forced_rex_bits"] += 1
+                    elif c["kind"] == "NL" and c.get("creator"):
+                        st["x_labels_created_by_" + {1: "code_holder", 2: "another_emitter", 3: "new_label_node"}[c["creator"]]] += 1
+                    elif c["kind"] == "JA":
+                        st["x_annotated_jump_target_" + c["target"]] += 1
+                        st["x_annotated_jumps_with_options_or_extra_reg"] += 1 if c.get("fancy") else 0
+                if hinted and s["flags"] & SG.F_PREDICTED:
+                    st["x_scripts_with_hinted_jcc_under_predicted_jumps"] += 1
                 for c in s["calls"]:
                     st["call_" + c["kind"]] += 1
                     if c["kind"] == "I":
@@ -252,6 +283,15 @@ def worker(arg):
                 h = SG.calls_hash(s)
                 hashes[h] = r["kinds"] & ~(1 << 2)
                 kinds_seen |= r["kinds"] | r["kinds_edit"]
+                kinds_compiler |= r.get("kinds_compiler", 0) | (r["kinds_edit"] if s["flags"] & SG.F_EDIT_COMPILER else 0)
+                st["x_foreign_label_nodes"] += r.get("foreign", 0)
+                st["x_global_const_calls"] += r.get("gc_calls", 0)
+                st["x_global_const_pools_compared"] += r.get("gc_pools", 0)
+                st["x_global_const_pools_compared_after_edits"] += r.get("gc_edit", 0)
+                st["x_state_before_refused_call_compared"] += r.get("sbrc", 0)
+                if r.get("go_on"):
+                    st["x_go_on_" + {1: "judged", 2: "not_comparable_builder_reports_at_finalize", 3: "no_call_refused"}[r["go_on"]]] += 1
+                    st["x_go_on_calls_replayed_after_a_refusal"] += r.get("go_on_after", 0)
                 st["nodes"] += r["nodes"]
                 if r["errR"]:
                     st["scripts_with_error"] += 1
@@ -266,6 +306,8 @@ def worker(arg):
                     edit_hashes.add(SG.edits_hash(s))
                     for k, v in s.get("sec_stats", {}).items():
                         st["secedit_" + k] += v
+                    for k, v in s.get("xstats", {}).items():
+                        st["xedit_" + k] += v
                     if s.get("sec_mode"):
                         st["secedit_section_centred_edit_scripts"] += 1
                     if len(s["secs"]) >= 2:
@@ -328,7 +370,8 @@ def worker(arg):
         out_viol.append((key, what, text, count))
     for key, what, s in probe_out:
         out_viol.append((key, what, SG.render(s, s.get("allow_empty", False)), 1))
-    return dict(st=dict(st), hashes=hashes, edit_hashes=list(edit_hashes), kinds=kinds_seen, viol=out_viol, samples=samples, harness=harness[:20])
+    return dict(st=dict(st), hashes=hashes, edit_hashes=list(edit_hashes), kinds=kinds_seen, kinds_compiler=kinds_compiler, viol=out_viol, samples=samples,
+                harness=harness[:20])
 
 
 def replay(chk, exe, rp):
@@ -361,7 +404,7 @@ def run(tier, args):
     if tier == "quick":
         nshards, total, want_forms = 16, int(3000 * args.scale), 260
     else:
-        nshards, total, want_forms = 64, int(40000 * args.scale), 200
+        nshards, total, want_forms = 64, int(100000 * args.scale), 200
     per = max(1, (total + nshards - 1) // nshards)
     jobs = [(s, nshards, chk.seed, per, exes, want_forms, s == 0) for s in range(nshards)]
     with multiprocessing.Pool(16) as pool:
@@ -370,6 +413,7 @@ def run(tier, args):
     hashes = {}
     edit_hashes = set()
     kinds = 0
+    kinds_c = 0
     samples = []
     byk = collections.OrderedDict()
     harness = []
@@ -382,6 +426,7 @@ def run(tier, args):
         hashes.update(o["hashes"])
         edit_hashes.update(o["edit_hashes"])
         kinds |= o["kinds"]
+        kinds_c |= o["kinds_compiler"]
         samples += o["samples"][:1]
         harness += o["harness"]
         for key, what, text, count in o["viol"]:
@@ -418,7 +463,28 @@ def run(tier, args):
         "instructions_with_label_operand": st["inst_with_label_operand"],
         "instructions_with_inline_comment": st["inst_with_inline_comment"],
         "multi_section_scripts": st["multi_section_scripts"],
-        "node_kinds_seen": sorted(NODE_KINDS.get(i, "type%d" % i) for i in range(32) if kinds >> i & 1),
+        "node_kinds_seen": sorted(NODE_KINDS.get(i, "type%d" % i) for i in range(32) if (kinds | kinds_c) >> i & 1),
+        "node_kinds_seen_in_compiler_lists": sorted(NODE_KINDS.get(i, "type%d" % i) for i in range(32) if kinds_c >> i & 1),
+        "added_dimensions": {
+            "annotated_jumps (Compiler::emit_annotated_jump -> JumpNode; plain instruction elsewhere)": {k[24:]: v for k, v in sorted(st.items()) if k.startswith("x_annotated_jump_target_")},
+            "annotated_jumps_with_options_or_extra_reg": st["x_annotated_jumps_with_options_or_extra_reg"],
+            "jcc_with_taken_or_not_taken_hint": st["x_jcc_with_taken_or_not_taken_hint"],
+            "scripts_with_hinted_jcc_under_predicted_jumps": st["x_scripts_with_hinted_jcc_under_predicted_jumps"],
+            "instructions_with_forced_rex_bits": st["x_inst_with_forced_rex_bits"],
+            "labels_created_by_code_holder": st["x_labels_created_by_code_holder"],
+            "labels_created_by_another_emitter": st["x_labels_created_by_another_emitter"],
+            "labels_created_by_new_label_node": st["x_labels_created_by_new_label_node"],
+            "label_nodes_made_on_demand (bind / embed_const_pool of such a label through Builder or Compiler)": st["x_foreign_label_nodes"],
+            "global_const_calls (Compiler::_new_const(kGlobal))": st["x_global_const_calls"],
+            "global_const_pools_compared": st["x_global_const_pools_compared"],
+            "global_const_pools_compared_after_edits": st["x_global_const_pools_compared_after_edits"],
+            "nodes_made_by_hand_in_edit_scripts": {k[24:]: v for k, v in sorted(st.items()) if k.startswith("xedit_node_made_by_hand_")},
+            "removals_of_inactive_nodes": {k[34:]: v for k, v in sorted(st.items()) if k.startswith("xedit_removal_of_inactive_node_by_")},
+            "state_before_refused_call_compared_with_node_order_assembler": st["x_state_before_refused_call_compared"],
+            "go_on_after_refused_call": {"judged": st["x_go_on_judged"], "calls_replayed_after_a_refusal": st["x_go_on_calls_replayed_after_a_refusal"],
+                                         "not_comparable_builder_reports_at_finalize": st["x_go_on_not_comparable_builder_reports_at_finalize"],
+                                         "no_call_refused": st["x_go_on_no_call_refused"]},
+        },
         "scripts_with_error": st["scripts_with_error"],
         "first_error_cases_compared": st["first_error_cases_compared"],
         "call_time_error_cases_compared": st["call_time_error_cases_compared"],
@@ -435,6 +501,22 @@ def run(tier, args):
         "sanitizer_reports": st["sanitizer_reports"], "generator_rejects": st["generator_rejects"], "probe_scripts": st["probe_scripts"],
         "exhaustive": False,
     })
+    # every added dimension must have been observed (scaled-down debugging runs excepted)
+    if args.scale >= 1 and st["scripts"]:
+        need = {"jump node in a Compiler list": kinds_c >> 15 & 1,
+                "hinted jcc under kPredictedJumps": st["x_scripts_with_hinted_jcc_under_predicted_jumps"],
+                "instructions with forced REX bits": st["x_inst_with_forced_rex_bits"],
+                "label nodes made on demand": st["x_foreign_label_nodes"],
+                "global constant pools compared": st["x_global_const_pools_compared"],
+                "global constant pools compared after edits": st["x_global_const_pools_compared_after_edits"],
+                "InstNodes made by hand in edit scripts": st["xedit_node_made_by_hand_I"],
+                "other nodes made by hand in edit scripts": st["xedit_node_made_by_hand_AL"] + st["xedit_node_made_by_hand_EM"] + st["xedit_node_made_by_hand_ED"] + st["xedit_node_made_by_hand_CM"],
+                "removals of inactive nodes": st["xedit_removal_of_inactive_node_by_remove_node"] and st["xedit_removal_of_inactive_node_by_remove_nodes"],
+                "state before a refused call compared": st["x_state_before_refused_call_compared"],
+                "go-on replays judged": st["x_go_on_judged"]}
+        missing = [k for k, v in need.items() if not v]
+        if missing and not byk:
+            raise common.HarnessError("added dimensions observed nothing: " + ", ".join(missing))
     chk.assumptions += [
         "vlib/scriptgen.Model (a Python list + cursor following the documented add_node / section / remove / add_before / add_after behaviour) is the trusted "
         "definition of 'the edited sequence'; the driver replays its node order into a fresh Assembler",
@@ -443,6 +525,13 @@ def run(tier, args):
         "error rule: first error code equal and everything produced before it equal; a Builder call that fails at the call must fail with the same code at the same call in the Assembler",
         "logger text is compared but not judged (the property names contents, labels, relocations and errors only)",
         "instruction validity is pre-computed by drv_emit / drv_emit_a64 with kValidateAssembler; absolute branch targets are fixed addresses relative to the base address",
+        "emit_annotated_jump(inst, target, annotation) on a Compiler without functions stands for emit(inst, target) on the other emitters; the annotation's label list has no effect on the code",
+        "Compiler::_new_const(kGlobal, data) stands for a [label + offset] operand plus embed_const_pool(label, pool) after the last node of the list on the other emitters; "
+        "the offsets are those asmjit's ConstPool hands out for the constants in call order (ConstPool itself is C19's subject)",
+        "removing a node that is not part of the list leaves the list unchanged (the library's explicit early return); a label id obtained from the CodeHolder or from "
+        "another emitter attached to it is as good as one obtained from the emitter under test",
+        "go-on replays: a script with one deliberately invalid call is also replayed with every emitter continuing after the refusal, judged only when Builder/Compiler "
+        "refuse the same calls with the same codes as the Assembler (a Builder that stores the offending instruction and fails in finalize() falls under the first-error rule)",
         "the new_inst_node probes run with ASan malloc_fill_byte=0xBE over whole allocations so that reads of never-initialised node memory give deterministic results",
     ]
     return chk.finish()
